@@ -602,6 +602,11 @@ func (ce *callEngine) call(ctx context.Context, params, results []uint64) (_ []u
 			m.CloseWithCtxErr(ctx)
 			return nil, m.FailIfClosed()
 		default:
+			// A cycle through a host function which calls back into the module never reaches a loop header: the
+			// closed module is noticed when the call is entered.
+			if err := m.FailIfClosed(); err != nil {
+				return nil, err
+			}
 		}
 	}
 
@@ -743,6 +748,20 @@ func (ce *callEngine) callNativeFunc(ctx context.Context, m *wasm.ModuleInstance
 	dataInstances := moduleInst.DataInstances
 	elementInstances := moduleInst.ElementInstances
 	ce.pushFrame(frame)
+	if f.parent.ensureTermination {
+		// The lowering only puts the check of the exit code at loop headers and tail calls, but a recursion which never
+		// gets deep (f(n){f(n-1); f(n-1)}), or a cycle through a host function calling back, consists of plain calls
+		// only: every cycle in the call graph enters a function.
+		// This is the same check as operationKindBuiltinFunctionCheckExitCode below.
+		if err := m.FailIfClosed(); err != nil {
+			panic(err)
+		}
+		if root := ce.f.moduleInstance; root != m {
+			if err := root.FailIfClosed(); err != nil {
+				panic(err)
+			}
+		}
+	}
 	body := frame.f.parent.body
 	bodyLen := uint64(len(body))
 	for frame.pc < bodyLen {
